@@ -134,10 +134,10 @@ impl Var {
 //@ cells: set_at, node, node_id
 //@ cells@t: num_var_sets, stabilisation_num
 //@ tracing: yes
-//@ rule R5: `let t = self.state.upgrade().unwrap();` => `` x1
-//@ rule R8: `self.set_at < t.stabilisation_num` => `self.set_at.0 < t.stabilisation_num.0` x1
-//@ rule R8: `debug_assert!(watch.is_stale());` => `` x*
-//@ rule R8: `vx_assert(watch.is_stale());` => `` x*
+//@ rule R5h re: `let (\w+) = self\s*\.\s*state\s*\.\s*upgrade\(\)\s*\.\s*unwrap\(\);` => `t` x1
+//@ stamps: set_at, stabilisation_num, now
+//@ rule R8 re: `debug_assert!\(\w+\.is_stale\(\)\);` => `` x*
+//@ rule R8 re: `vx_assert\(\w+\.is_stale\(\)\);` => `` x*
 //@ props: C05 C06 C07 C08 C13
 //@ contract:
 //@|     requires old(self).node is Some, old(t).num_var_sets < usize::MAX,
@@ -174,7 +174,7 @@ impl Var {
 //@ as: fn set(&mut self, value: u64, t: &mut State)
 //@ cells: value, value_set_during_stabilisation, node_id
 //@ cells@t: status, set_during_stabilisation
-//@ rule R5: `let t = self.state.upgrade().unwrap();` => `` x1
+//@ rule R5h re: `let (\w+) = self\s*\.\s*state\s*\.\s*upgrade\(\)\s*\.\s*unwrap\(\);` => `t` x1
 //@ rule R5: `self.set_var_while_not_stabilising(value);` => `self.set_var_while_not_stabilising(value, t);` x1
 //@ rule R8: `self.erased()` => `vx_weak_var(self.node_id)` x1
 //@ props: C05 C06 C07 C08 C13
@@ -229,7 +229,7 @@ impl Var {
 //@ as: fn update<F: FnOnce(u64) -> u64>(&mut self, f: F, t: &mut State)
 //@ cells: value, value_set_during_stabilisation, node_id
 //@ cells@t: status, set_during_stabilisation
-//@ rule R5: `let t = self.state.upgrade().unwrap();` => `` x1
+//@ rule R5h re: `let (\w+) = self\s*\.\s*state\s*\.\s*upgrade\(\)\s*\.\s*unwrap\(\);` => `t` x1
 //@ rule R5: `self.did_set_var_while_not_stabilising();` => `self.did_set_var_while_not_stabilising(t);` x1
 //@ rule R8: `self.erased()` => `vx_weak_var(self.node_id)` x1
 //@ props: C05 C06 C07 C08 C13
@@ -251,7 +251,7 @@ impl Var {
 //@ as: fn replace_with<F: FnOnce(&mut u64) -> u64>(&mut self, f: F, t: &mut State) -> (r: u64)
 //@ cells: value, value_set_during_stabilisation, node_id
 //@ cells@t: status, set_during_stabilisation
-//@ rule R5: `let t = self.state.upgrade().unwrap();` => `` x1
+//@ rule R5h re: `let (\w+) = self\s*\.\s*state\s*\.\s*upgrade\(\)\s*\.\s*unwrap\(\);` => `t` x1
 //@ rule R5: `self.did_set_var_while_not_stabilising();` => `self.did_set_var_while_not_stabilising(t);` x1
 //@ rule R8: `self.erased()` => `vx_weak_var(self.node_id)` x1
 //@ props: C05 C06 C07 C08 C13
@@ -272,7 +272,7 @@ impl Var {
 //@ as: fn modify<F: FnOnce(&mut u64)>(&mut self, f: F, t: &mut State)
 //@ cells: value, value_set_during_stabilisation, node_id
 //@ cells@t: status, set_during_stabilisation
-//@ rule R5: `let t = self.state.upgrade().unwrap();` => `` x1
+//@ rule R5h re: `let (\w+) = self\s*\.\s*state\s*\.\s*upgrade\(\)\s*\.\s*unwrap\(\);` => `t` x1
 //@ rule R5: `self.did_set_var_while_not_stabilising();` => `self.did_set_var_while_not_stabilising(t);` x1
 //@ rule R8: `self.erased()` => `vx_weak_var(self.node_id)` x1
 //@ props: C05 C06 C07 C08 C13
